@@ -32,7 +32,12 @@ META = {
             "quaternion hemispheres, translations 0..10, log-scales |s|<=1.5, points 0..10); batched tensors with per-item "
             "values and broadcast leaves; random / sparse / basis cotangents; float64 and float32. A `batch` stream hands whole "
             "batched calls (mixed-rank / expanded / scalar / incompatible batch shapes, fixed corner shapes + random) to the model's "
-            "own broadcasting layer (c04.bcall). A `local` stream runs every "
+            "own broadcasting layer (c04.bcall). Pass 4: `large` (2^14+1 / 2^16+1 items and both sides of 25/26 ... 1024/1025 through "
+            "forward and backward of every Function family: split-consistency, first / last / random item vs the single-item call, "
+            "model on a sample incl. the last item), `ties` (exact coincidences: quarter turns |v| == |w| bit for bit, theta == 0.05, "
+            "theta == eps, |sigma| == theta, Y == X, p == t), `fresh` (keys first used under inference_mode / no_grad, then backward), "
+            "`subclass`, `defdtype` (default dtype x operand dtype: metadata), `signs` (signed / scaled / zero cotangents, alpha of "
+            "either sign), `numpy` (operands over numpy buffers refilled in place). A `local` stream runs every "
             "single Function (all groups, both arguments) on the full ladder. Log / Jinvp inputs are kept away from the "
             "rotation angle pi (> 0.3 rad); Jinvp additionally away from the zero rotation (theta >= 1e-3 — the quantifier's "
             "domain). non-trivial = at least one non-identity leaf; distinct by (program shape, groups, dtype, regime tags)",
@@ -43,7 +48,7 @@ META = {
         "the finite-difference oracle differentiates the model's forward pass (tied to the code by the fwd stream and by C01-C03)",
     ],
     "assumptions": [
-        "group leaves are valid elements (unit quaternion to 1 ulp, positive scale)",
+        "group leaves are valid elements (unit quaternion to 1 ulp, POSITIVE scale — `ScalePos` in the theorems)",
         "Log / Jinvp are evaluated at rotations with angle <= pi - 0.3; Jinvp gradient with respect to X at angle >= 1e-3",
         "a group-valued program output pairs its cotangent with the left-perturbation chart Log(out(t) out(0)^-1): "
         "the last storage slot of that cotangent is ignored by every backward pass",
@@ -61,6 +66,23 @@ META = {
         "{Inv, @, Act, Act4, Adj, AdjT, matrix()} is covered unconditionally (gradient_exact_algebraic, leaf_gradient_exact_algebraic)",
         "sim3/Sim3 Exp and Log backward use the documented truncated series: oracle comparison only where "
         "30*|ad xi|^6/5040*e^|ad xi| <= 1e-2, otherwise correspondence with the (equally truncated) model only",
+        "NO NaN / Inf (incl. identity / zero vector) is decided by the harness only: the code evaluates both branches and masks "
+        "(idx * nan_to_num(closed form)), which the model's `if` does not represent; the Lean statements about these points say which "
+        "linear maps the backward passes are (true for any coefficients) and that the model selects the Taylor branches",
+        "statelessness across calls and aliasing = sharing of the REAL code are harness-only (reuse / stale / views / interleave / "
+        "copies / fresh streams): the corresponding Lean facts are facts of a pure model (lemmas, not property theorems); likewise "
+        "that broadcast_inputs / expand / autograd's reduction behave like the model's `bcontribs` rests on the `batch` stream",
+        "not covered by a single theorem: group-valued roots ('.grad = derivative read through the chart Log(Y Y0^-1)': only the "
+        "pieces chart_reads_tangent, chart_in_regime, program_tangent_exact_*); the SE3 calcQ series branch eps < theta <= 0.05; "
+        "sim3: distance of sim3_Jl / sim3_Jl_inv from the exact left-Jacobian series <= C |ad xi|^6 for |ad xi| <= 1 is proved "
+        "(sim3_Jl_truncation_bound_partial), that this series is the derivative of the coded sim3_Exp is not; the calcQ threshold "
+        "is the exact 5/100 in the model but float(0.05) in the code (float32: 0.0500000007): at theta == float(0.05) the two sit on "
+        "different branches, which agree to 1e-13 — far below every tolerance that applies to a program with an SE3 node, so no "
+        "either-branch retry is made for 0.05 (the threshold is hard-coded in the shared Lie.lean); the tie corpus contains "
+        "theta == 0.05 exactly for both dtypes",
+        "float64 tolerance of programs with SE3 nodes is graded: 1e4*eps unless an SE3 site has 0.05 < theta < 0.5 (closed forms of "
+        "calcQ lose 60 eps/theta^4), where it is 600*eps/theta_min^4 (2e-8 at 0.05, 8e-11 at 0.2), capped by 4*sqrt(eps); both the "
+        "model comparison and the finite-difference oracle use it",
         "float rounding of the backward passes is measured (tolerance 4*sqrt(eps)*scale; 1e4*eps for float64 programs outside the "
         "cancellation bands of (1-cos t)/t^2), not proved",
     ],
